@@ -179,6 +179,8 @@ void of_mod2sparse_clear (of_mod2sparse *r)
 		r->blocks = b->next;
 		free (b);
 	}
+	/* the free list lived in the blocks just released */
+	r->next_free = 0;
 	OF_EXIT_FUNCTION
 }
 
